@@ -76,3 +76,13 @@ def oer_int_form(lo_is_min, lo, hi_is_max, hi):
     if lo >= -9223372036854775808 and hi <= 9223372036854775807:
         return (True, 8)
     return (True, 0)
+
+
+@axiom
+def bin80_axiom(v: Str):
+    """hex()/unhexlify on int(v, 2) for a string v of '0'/'1' that starts with '10000000' and whose length is a
+    multiple of 8: hex(int(v, 2)) is '0x80' followed by exactly (len(v) - 8)/4 digits, so unhexlify(hex(..)[4:])
+    has len(v)/8 - 1 octets (assumed contract of the builtins int/hex/unhexlify)"""
+    requires(is_bitstr(v) and len(v) % 8 == 0 and len(v) >= 8 and v[:8] == '10000000')
+    ensures(hex80_even(bits_val(v)))
+    ensures(len(hex80_bytes(bits_val(v))) == len(v) // 8 - 1)
